@@ -11,6 +11,7 @@ mod s_cfg;
 mod s_parse;
 mod s_par;
 mod s_api;
+mod s_ctor;
 
 use std::io::{BufRead, Write};
 
@@ -32,6 +33,7 @@ fn run_line(line: &str) -> String {
         "PARSE" => s_parse::run(&idc, &restc),
         "PAR" => s_par::run(&idc, &restc),
         "API" => s_api::run(&idc, &restc),
+        "CTOR" => s_ctor::run(&idc, &restc),
         _ => format!("{} unknown-stream", idc),
     });
     match r { Ok(s) => s, Err(_) => format!("{} panic", id) }
@@ -57,6 +59,7 @@ fn main() {
                 "PARSE" => s_parse::gen(seed, n, &mut out),
                 "PAR" => s_par::gen(seed, n, &mut out),
                 "API" => s_api::gen(seed, n, &mut out),
+                "CTOR" => s_ctor::gen(seed, n, &mut out),
                 _ => panic!("unknown stream"),
             }
             print!("{}", out);
